@@ -919,6 +919,7 @@ class C06Check(PoolCheckBase):
             from . import streamsim as S
 
             c3 = S.C03Check()
+            c3.allow_unseeded = False  # a fixed random_state is the premise of the property
             sc = c3.generate(rng.fork("stream"))
             sc["injections"] = []
             sc["engine"] = "poolsim"
